@@ -722,6 +722,16 @@ func (ex *Exec) letterPrefix(atoms []*Term) (prefix []*Term, delim byte, rest []
 // their first non-letter character, which must be at the same position: P1 d R1 = P2 d' R2  <=>  P1 = P2, d = d', R1 = R2.
 // nil = no progress.
 func (ex *Exec) splitPlainEq(a, b *Term) *Term {
+	// both sides start with the decimal text of an integer followed by a constant that starts with neither a digit
+	// nor '-': the numbers end at the same place, so they are equal (Itoa is injective) and so are the remainders
+	aa, ba := catAtoms(a), catAtoms(b)
+	if len(aa) >= 2 && len(ba) >= 2 {
+		if i, ok := itoaArg(aa[0]); ok {
+			if j, ok := itoaArg(ba[0]); ok && nonNumericStart(aa[1]) && nonNumericStart(ba[1]) {
+				return mkAnd(mkEq(i, j), mkEq(mkConcat(aa[1:]...), mkConcat(ba[1:]...)))
+			}
+		}
+	}
 	pa, da, ra, fa, oka := ex.letterPrefix(catAtoms(a))
 	pb, db, rb, fb, okb := ex.letterPrefix(catAtoms(b))
 	if !oka || !okb {
@@ -737,4 +747,23 @@ func (ex *Exec) splitPlainEq(a, b *Term) *Term {
 		return tFalse // one side has a non-letter character, the other consists of letters
 	}
 	return nil
+}
+
+// itoaArg recognises the term the strconv.Itoa / %d stubs build for an integer i and returns i.
+func itoaArg(t *Term) (*Term, bool) {
+	if t.Op == "str.from_int" {
+		return t.Args[0], true
+	}
+	if t.Op == "ite" && len(t.Args) == 3 && t.Args[2].Op == "str.from_int" {
+		i := t.Args[2].Args[0]
+		c := t.Args[0]
+		if c.Op == "<" && c.Args[0] == i && c.Args[1].Op == "ci" && c.Args[1].I == 0 {
+			return i, true
+		}
+	}
+	return nil, false
+}
+
+func nonNumericStart(t *Term) bool {
+	return t.Op == "cs" && t.S != "" && t.S[0] != '-' && (t.S[0] < '0' || t.S[0] > '9')
 }
